@@ -61,37 +61,7 @@ def gen_case(rng, tier):
             nxt = g.unary(state, rng.choice(["sel", "dedup", "proj"]))
             state = nxt or state
     if rng.random() < 0.15:
-        # the same program over "twin" leaves: same library name, columns and engine (so the
-        # relations compare equal) but different rows; both chained together
-        prog, cols, eng = state
-        twins = {}
-        for name in {s[1] for s in model.subprograms(prog) if s[0] == "leaf"}:
-            spec = g.leaves[name]
-            if spec.get("kind") != "normal" or spec.get("table_of") or spec.get("mapping_key"):
-                twins = None
-                break
-            t = dict(spec)
-            t["libname"] = spec.get("libname", name)
-            shift = rng.choice([-3, 2, 4])
-            t["rows"] = [[v + shift for v in r] for r in spec["rows"]] if rng.random() < 0.7 else []
-            t["min"], t["max"] = (len(t["rows"]), len(t["rows"])) if spec.get("min") == len(spec["rows"]) else (0, None)
-            twins[name] = t
-        if twins:
-            for name, t in twins.items():
-                g.leaves[name + "t"] = t
-
-            def retarget(p):
-                if p[0] == "leaf":
-                    return ["leaf", p[1] + "t"]
-                return [retarget(x) if isinstance(x, list) and x and isinstance(x[0], str) and x[0] in ("leaf", "calc", "proj", "sel", "dedup", "sort", "slice", "chain", "join", "mat", "xfer") else x for x in p]
-
-            def rename_mats(p):
-                if isinstance(p, list) and p and p[0] == "mat":
-                    return ["mat", rename_mats(p[1]), p[2] + "t"]
-                return [rename_mats(x) if isinstance(x, list) else x for x in p] if isinstance(p, list) else p
-
-            twin_prog = rename_mats(retarget(prog))
-            state = (["chain", prog, twin_prog] if rng.random() < 0.5 else ["chain", twin_prog, prog], cols, eng)
+        state = gen.chain_with_name_twin(g, state, rng) or state
     case = gen.case_from(g, state)
     case["mode"] = mode
     return case
@@ -148,7 +118,17 @@ def run_case(case):
 
         def executor(r):
             calls.append(r)
-            got, _, _ = multi.evaluate(r, db, VProcessor(db))
+            try:
+                got, _, _ = multi.evaluate(r, db, VProcessor(db))
+            except R.RelationalAlgebraError as exc:
+                if "will not preserve row order" not in str(exc):
+                    raise
+                # an inner node that cannot be compiled on its own (re-conforming it trips the
+                # row-order policy): answer truthfully from the independent interpreter instead
+                c["executor_answers_from_interpreter"] = c.get("executor_answers_from_interpreter", 0) + 1
+                from .. import interp
+
+                got = interp.eval_tree(r, b.rows_of_leaf)[0]
             return bool(got)
 
         try:
